@@ -397,6 +397,8 @@ pub trait Instrumented: Problem<Objective = SingleObjective> + ObjectiveFunction
     fn sol_hash(s: &Self::Encoding) -> u64;
     /// Another instance of the same problem type (different dimension and domain / matrix).
     fn sibling(&self) -> Self;
+    /// An equal instance with an instrument of its own.
+    fn fresh_copy(&self) -> Self;
 }
 impl Instrumented for RealP {
     fn instr(&self) -> &Instr {
@@ -413,6 +415,11 @@ impl Instrumented for RealP {
         domain.push(-3.0..40.0);
         RealP::with_domain(domain, self.kind)
     }
+    fn fresh_copy(&self) -> Self {
+        let mut p = self.clone();
+        p.instr = Instr::new();
+        p
+    }
 }
 impl Instrumented for BitsP {
     fn instr(&self) -> &Instr {
@@ -427,6 +434,11 @@ impl Instrumented for BitsP {
     fn sibling(&self) -> Self {
         BitsP::new(self.dim + 3)
     }
+    fn fresh_copy(&self) -> Self {
+        let mut p = self.clone();
+        p.instr = Instr::new();
+        p
+    }
 }
 impl Instrumented for TspP {
     fn instr(&self) -> &Instr {
@@ -440,5 +452,10 @@ impl Instrumented for TspP {
     }
     fn sibling(&self) -> Self {
         TspP::generated(self.n + 1, 2, 99)
+    }
+    fn fresh_copy(&self) -> Self {
+        let mut p = self.clone();
+        p.instr = Instr::new();
+        p
     }
 }
